@@ -628,6 +628,49 @@ func (c *c06ctx) p2siblings() {
 	}
 }
 
+// callersGuarantee: trav is a parameter of the unexported function f, and at
+// every call site of f in the repository (static calls only, at least one)
+// the argument bound to it is a traveler known not to be null there.
+func (c *c06ctx) callersGuarantee(f *ssa.Function, trav ssa.Value) bool {
+	par, ok := trav.(*ssa.Parameter)
+	if !ok || f.Object() == nil || f.Object().Exported() {
+		return false
+	}
+	idx := -1
+	for i, p := range f.Params {
+		if p == par {
+			idx = i
+		}
+	}
+	if idx < 0 {
+		return false
+	}
+	node := c.p.CallGraph().Nodes[f]
+	if node == nil || len(node.In) == 0 {
+		return false
+	}
+	for _, e := range node.In {
+		if e.Site == nil {
+			return false
+		}
+		cc := e.Site.Common()
+		if cc.IsInvoke() || cc.StaticCallee() != f || idx >= len(cc.Args) {
+			return false
+		}
+		arg := cc.Args[idx]
+		okSite := false
+		for _, fct := range domFacts(e.Site.Block()) {
+			if travNotNull(fct.Cond, fct.Truth, arg, 0) {
+				okSite = true
+			}
+		}
+		if !okSite {
+			return false
+		}
+	}
+	return true
+}
+
 // invokeTargets: the repository methods an interface method call may dispatch to.
 func (c *c06ctx) invokeTargets(cc *ssa.CallCommon) []*ssa.Function {
 	iface, ok := cc.Value.Type().Underlying().(*types.Interface)
@@ -732,6 +775,10 @@ func (c *c06ctx) p2(f *ssa.Function) {
 		c.res.CallSites++
 		if guarded(b, v, trav) {
 			c.res.OK("P2", key, c.p.Pos(pos), "dereference dominated by a nil / IsNull test")
+			return
+		}
+		if trav != nil && c.callersGuarantee(f, trav) {
+			c.res.OK("P2", key, c.p.Pos(pos), "the traveler is a parameter of an unexported helper and every call site passes a traveler that was tested with IsNull()")
 			return
 		}
 		if seen[key] {
